@@ -3,21 +3,23 @@
 (a) every choice sequence of every bounded archetype instance: per execution and per object the number and masses of the
     units are related to the target actually drawn (tolerance 1e-9; targets are placed off the unit boundaries);
 (b) boundary family: for prefix x unit x suffix the cumulative masses a_1..a_4 the LIBRARY computes are calibrated on
-    the real objects, and the instance is re-parsed with the zero-width law gauss(<that float>, 0) for targets exactly at,
-    one ulp below and one ulp above every boundary, plus negative / zero / half-unit targets: the number of units must be
-    min{n >= 1 : a_n > t} with exact float comparison.
+    the real objects, and the instance is re-parsed with the zero-width law gauss(<that float>, 0) for targets 1e-7 below
+    and above every boundary, plus negative / zero / half-unit targets: the number of units must be min{n >= 1 : a_n > t}.
+    Targets exactly at, one ulp below and one ulp above a boundary are used on instances whose atoms all carry the
+    isotope label 12C: their cumulative masses are integer-valued floats under any summation order, so '>' versus '>='
+    is decided without depending on the last bits of a float sum.
 """
 import math
 
 from . import _gen
 from ._gen import ANCHORS, ASSUMPTIONS  # noqa
-from ..common import new_result, viol
+from ..common import new_result, run_limited, viol
 from ..instances import PREFIXES, SUFFIXES, UNITS_DIR, UNITS_SYM, rot
 from ..scripted import ScriptedGenerator
 
 LEVEL_RULE = (
-    "all choice sequences of bounded instances (units per object vs drawn target) + exhaustive boundary menu: targets at, one ulp "
-    "below and above each cumulative mass computed by the library itself, for every prefix x unit x suffix of the tier; "
+    "all choice sequences of bounded instances (units per object vs drawn target) + exhaustive boundary menu: targets 1e-7 below / above "
+    "each cumulative mass (calibrated on the real objects) for every prefix x unit x suffix of the tier, and exactly at / one ulp around it on exact-arithmetic (12C-labelled) instances; "
     "states = choice points + boundary targets, transitions = generator answers, traces = executions judged"
 )
 BOUNDS = {"quick": "families core slice; boundary menu for 3 units x 2 prefixes x 2 suffixes x 17 targets", "thorough": "full families; boundary menu for all units x prefixes x suffixes"}
@@ -37,6 +39,16 @@ def enumerate_cases(tier, seed):
         for p in prefixes:
             for s in suffixes:
                 yield ("boundary", {"unit": u, "prefix": p, "suffix": s})
+    # exact-arithmetic instances: every atom carries the isotope label 12C (mass exactly 12.0), so every cumulative mass
+    # is an integer-valued float under ANY order of summation; only here are targets placed exactly at / one ulp around a
+    # boundary (elsewhere the last bits of a cumulative mass depend on the summation order, which the property does not fix)
+    for u in EXACT_UNITS:
+        for p in ("[12CH3]", "[12CH3][12CH2]"):
+            for s in ("[12CH3]", None):
+                yield ("boundary", {"unit": u, "prefix": p, "suffix": s, "exact": True})
+
+
+EXACT_UNITS = ["[<][12CH2][12CH2][>]", "[$][12CH2][12CH2][$]", "[<][12CH2][12CH]([12CH3])[>]"]
 
 
 def _sym(u):
@@ -80,19 +92,27 @@ def eval_case(kind, data):
             w0 = Descriptors.HeavyAtomMolWt(gbigsmiles.Molecule(_text(p, u, None, 1.0)).elements[0].generate().mol)
         a.append(Descriptors.HeavyAtomMolWt(mg.mol) - w0)
     targets = [-7.5, -0.0, 0.0, 0.5 * m]
+    exact = bool(data.get("exact"))
+    if exact and any(x != round(x) for x in a):
+        viol(res, f"C07|calibration|{fam}", f"isotope-labelled instance: cumulative masses {a} are not integers", None)
+        return res
     for k in range(3):
-        targets += [math.nextafter(a[k], -math.inf), a[k], math.nextafter(a[k], math.inf), a[k] - 1e-7, a[k] + 1e-7]
+        targets += [a[k] - 1e-7, a[k] + 1e-7]
+        if exact:
+            targets += [math.nextafter(a[k], -math.inf), a[k], math.nextafter(a[k], math.inf)]
     n_exec = 0
     outcomes = set()
     for t in targets:
         exp = next(n for n in range(1, 6) if n > len(a) or a[n - 1] > t)
         txt = _text(p, u, s, t)
         rng = ScriptedGenerator([])
-        try:
-            mg = gbigsmiles.Molecule(txt).generate(rng=rng)
+        st, mg = run_limited(lambda: gbigsmiles.Molecule(txt).generate(rng=rng), (), 30)
+        if st == "ok":
             got = _units_of(mg, u)
-        except Exception as e:  # noqa
-            got = f"{type(e).__name__}"
+        elif st in ("timeout", "memory"):
+            got = "generation does not terminate (no result after 30 s):"
+        else:
+            got = str(mg).split("(")[0]
         n_exec += 1
         if any(pt.kind != "choice" for pt in rng.points):
             viol(res, f"C07|zero-width-draw|{fam}", f"{txt}: zero width law consulted the generator", None)
